@@ -7,7 +7,7 @@ from concurrent.futures import ThreadPoolExecutor
 VERIF = os.path.dirname(os.path.dirname(os.path.abspath(__file__)))
 COQ = os.path.join(VERIF, "coq")
 HARNESS = os.path.join(VERIF, "harness")
-BIN = os.path.join(HARNESS, "target", "release", "bpharness")
+BIN = os.environ.get("VERIF_HARNESS_BIN") or os.path.join(HARNESS, "target", "release", "bpharness")  # override: tools/coverage.sh only
 WORK = os.path.join(VERIF, "work")
 REPLAYS = os.path.join(VERIF, "replays")
 EVID = os.path.join(VERIF, "evidence")
@@ -30,6 +30,8 @@ def sh(cmd, cwd=None, timeout=3600, env=None, check=False):
 def build_harness():
     """cargo's own freshness check makes this cheap when /repo is unchanged; always rebuilds against /repo's working tree"""
     lock_src = "/repo/Cargo.lock"
+    if os.environ.get("VERIF_HARNESS_BIN"):
+        return os.path.exists(BIN), "prebuilt harness (coverage audit)"
     rc, out = sh("cargo build --release --offline 2>&1 | tail -40", cwd=HARNESS, timeout=3000)
     ok = os.path.exists(BIN) and "error" not in out.lower().replace("errors.rs", "")
     rc2, _ = sh("cargo build --release --offline", cwd=HARNESS, timeout=3000)
